@@ -117,7 +117,9 @@ def eval_case(ctx, case):
         out = r.stdout
         notice = 0
         if out != base_out:
-            if out.startswith(base_out) and out[len(base_out):].strip() == NOTICE:
+            extra = out[len(base_out):].strip() if out.startswith(base_out) else None
+            # the notice: today's wording at any time, or - when a newer final release was announced - any single line
+            if extra == NOTICE or (extra and "\n" not in extra and case["net_ready"] and case["answer"] in ("newer", "newer-no-v")):
                 notice = 1
             else:
                 V("stdout-changed", f"stdout {out!r}, the command itself prints {base_out!r}",
